@@ -37,6 +37,15 @@ func Dev(name string, c *core.Ctx) {
 	case "pkgstate":
 		DumpPkgState(c)
 	default:
+		if strings.HasPrefix(name, "asm:") {
+			parts := strings.Split(name, ":")
+			only := ""
+			if len(parts) > 3 {
+				only = parts[3]
+			}
+			DumpAsm(c, parts[1], parts[2], only)
+			return
+		}
 		if strings.HasPrefix(name, "ir:") {
 			parts := strings.Split(name, ":")
 			DumpIR(c, parts[1], parts[2])
@@ -85,5 +94,28 @@ func DumpIR(c *core.Ctx, dialect, fn string) {
 			fmt.Println("   !!", v.rule, v.cons)
 		}
 		break
+	}
+}
+
+// DumpAsm prints sequence counts of emitter methods (developer aid).
+func DumpAsm(c *core.Ctx, rel, recv, only string) {
+	a := newAsmCtx(c.Prog, rel, recv)
+	for _, fd := range sortedFuncDecls(a.methods()) {
+		if only != "" && fd.Name.Name != only {
+			continue
+		}
+		seqs, ok := a.seqs(fd, asmEnv{}, 0)
+		fmt.Printf("%-40s ok=%v seqs=%d\n", fd.Name.Name, ok, len(seqs))
+		if only != "" && ok {
+			for i, s := range seqs {
+				if i > 1 {
+					break
+				}
+				for _, o := range s.Ops {
+					fmt.Println("    ", o.Kind, o.String())
+				}
+				fmt.Println("  ----")
+			}
+		}
 	}
 }
